@@ -122,6 +122,12 @@ def corpus():
             out.append(["db %d" % usedb, "rule 0 sig=0 obs=1", "rule 1 sig=0 obs=1", "rule 2 sig=0 obs=1", "rule 4 sig=0 obs=0 req=2 single=0 follow=1 ord=%s" % ordr,
                         "rule 5 sig=0 obs=0 req=4", "set 0 1", "set 1 1", "set 2 1", "build 5", "set 2 2", "build 5", "set 2 3"] + (["restart"] if usedb else []) +
                        ["build 5", "set 1 2", "build 5", "set 2 4", "build 4"])
+    # a build that FAILS on a cycle after it has already brought another key up to date still consumes its epoch: the next build on the same engine
+    # must validate that key again (its input changed meanwhile)
+    # (oracle only: the specification engine does not flag in-progress rules at a cycle failure - documented infidelity - so the histories carry "#nomodel")
+    for usedb in (0, 1):
+        out.append(["#nomodel", "db %d" % usedb, "rule 0 sig=0 obs=1", "rule 1 sig=0 obs=0 req=0", "rule 2 sig=0 obs=0 req=3", "rule 3 sig=0 obs=0 req=2", "rule 4 sig=0 obs=0 req=1,2",
+                    "set 0 1", "build 1", "set 0 2", "build 4", "set 0 3", "build 1", "build 4", "set 0 4", "build 1"])
     out.append(["db 1", "name 0 37", "name 1 303037", "rule 0 sig=0 obs=1", "rule 1 sig=0 obs=1", "rule 2 sig=1 obs=0 req=0,1",
                 "set 0 1", "set 1 1", "build 2", "restart", "set 1 4", "build 2"])
     return out
@@ -177,7 +183,7 @@ def run(chk):
                                 "build 7 sched=sync cancel=cb:%d" % nn, "restart", "set 0 3", "build 7", "build 5"], "corpus-fb", "corpus iteration-persisted", model=False)
     stats = dict(histories=0, with_db=0, with_restart=0, with_rule_edit=0, sched={})
     for i, L in enumerate(corpus()):
-        one_history(chk, sess, L, "corpus%d" % i, "corpus")
+        one_history(chk, sess, [l for l in L if l != "#nomodel"], "corpus%d" % i, "corpus", model=("#nomodel" not in L))
     for i in range(n):
         rng = random.Random(chk.rng.random())
         sc = SCHEDS[i % len(SCHEDS)]
